@@ -85,7 +85,7 @@ def parse_tlc(out, res):
             m = re.search(r'Invariant (\S+) is violated', line)
             if m:
                 res.violated = m.group(1)
-            elif "Temporal properties were violated" in line:
+            elif "Temporal propert" in line and "violated" in line:
                 res.violated = "<temporal>"
             elif "Deadlock reached" in line:
                 res.violated = "<deadlock>"
